@@ -30,14 +30,14 @@ NPROC = min(16, os.cpu_count() or 1)
 # world description: blocks, links, modifications (pure data)
 # ------------------------------------------------------------------------------------------------------------
 
-def single_block(name, size, nrexcl, variant, tag):
-    """one single-residue block; `tag` makes atom types / parameters unique per block type.
+def single_block(name, size, nrexcl, variant, tag, atom_resname=None):
+    """one single-residue block (atom_resname: residue name in its [ atoms ] section when it differs from the block name); `tag` makes atom types / parameters unique per block type.
     variant 0 'full'  : every section that fits (bonds, angles, exclusions, pairs, constraints), one tagged interaction
     variant 1 'sparse': constraint instead of bond (2 atoms) / one bond + virtual_sitesn + exclusion (3 atoms)
     variant 2 'path'  : bonds along a1-a2-a3 only
     variant 3 'pathx' : path bonds + explicit exclusion between the two ends (the pair at distance size-1)"""
     cgs = {1: [[1], [1], [1], [1]], 2: [[1, 1], [1, 2], [1, 1], [1, 2]], 3: [[1, 1, 2], [1, 2, 3], [1, 1, 1], [1, 2, 2]]}[size][variant]
-    atoms = [{"atomname": ATOMN[i], "atype": f"T{tag}{i + 1}", "resid": 1, "resname": name, "cg": cgs[i],
+    atoms = [{"atomname": ATOMN[i], "atype": f"T{tag}{i + 1}", "resid": 1, "resname": atom_resname or name, "cg": cgs[i],
               "charge": 0.25 * (i + 1) - 0.5 + 0.125 * tag, "mass": 10.0 * (i + 1) + tag} for i in range(size)]
     p = str(tag)
     inter = {}
@@ -98,6 +98,22 @@ def termini_mods(with_interaction):
         mods[1]["atoms"].append(["a2", {}])
         mods[1]["inter"] = {"constraints": [[["a1", "a2"], ["1", "0.99"], {"group": "CT"}]]}
     return mods
+
+
+def disjoint_mods(with_interaction):
+    """three modifications that name DIFFERENT atoms: N-ter replaces a1, SC-cap only names a2 (and a3), C-ter only a3"""
+    mods = [{"name": "N-ter", "atoms": [["a1", {"atype": "QN", "charge": 1.0}]], "inter": {}},
+            {"name": "SC-cap", "atoms": [["a2", {"atype": "QS"}]], "inter": {}},
+            {"name": "C-ter", "atoms": [["a3", {"charge": -1.0, "mass": 99.0}]], "inter": {}}]
+    if with_interaction:
+        mods[1]["atoms"].append(["a3", {}])
+        mods[1]["inter"] = {"constraints": [[["a2", "a3"], ["1", "0.98"], {"group": "SC"}]]}
+    return mods
+
+
+# residue-graph annotations whose names collide with atom attributes (they describe the residue node, not its atoms)
+ANNOT = {"charge": -1.0, "mass": 5.0, "atype": "ZZ", "atomname": "XX", "charge_group": 9}
+ANNOT_VARIANTS = [{k: v} for k, v in ANNOT.items()] + [dict(ANNOT)]
 
 
 # ------------------------------------------------------------------------------------------------------------
@@ -331,6 +347,7 @@ def run_pipeline(paths, gw, modsel=None, name="test"):
             attrs = {"resname": resname, "resid": resid}
             if fi:
                 attrs["from_itp"] = fi
+            attrs.update(dict(gw.get("attrs", [])).get(key, {}))      # annotations of the residue node
             g.add_node(key, **attrs)
         g.add_edges_from([tuple(e) for e in gw["edges"]])
         meta = mm.MetaMolecule(g, force_field=ff, mol_name=name)
@@ -524,6 +541,33 @@ def c01_force_fields(thorough):
             items.append(["link", ff_link([["a1", "", None], ["a1", ">", None]], {"bonds": [[[0, 1], ["1", "0.47", "1250"], {}]]}, NAMES[:k])])
             out.append({"id": f"m{idx}", "kind": "mods", "names": NAMES[:k], "files": [["ff", items]], "sizes": list(sizes), "link": 1})
             idx += 1
+    # three modifications naming different atoms; -mods with two and three entries
+    for sizes in [(3,), (2, 3), (1, 3), (3, 3)] + ([(2,), (2, 2), (1, 2)] if thorough else []):
+        blocks = [single_block(NAMES[i], s, 1, i % 2, i + 1) for i, s in enumerate(sizes)]
+        items = [["block", b] for b in blocks] + [["mod", m] for m in disjoint_mods(min(sizes) >= 3)]
+        items.append(["link", ff_link([["a1", "", None], ["a1", ">", None]], {"bonds": [[[0, 1], ["1", "0.47", "1250"], {}]]}, NAMES[:len(sizes)])])
+        out.append({"id": f"d{idx}", "kind": "mods2", "names": NAMES[:len(sizes)], "files": [["ff", items]], "sizes": list(sizes), "link": 1})
+        idx += 1
+    # block name differs from the residue name in its [ atoms ] section (block PMMA made of MMA atoms)
+    for sizes, syntax in [((3,), "ff"), ((2, 3), "ff"), ((2, 3), "itp"), ((3, 1), "itp")]:
+        bnames = ["PMMA", "PS"][:len(sizes)]
+        anames = ["MMA", "STY"]
+        blocks = [single_block(bnames[i], s, 1, i % 2, i + 1, atom_resname=anames[i]) for i, s in enumerate(sizes)]
+        files = [[syntax, [["block", b] for b in blocks]],
+                 ["ff", [["link", ff_link([["a1", "", None], ["a1", ">", None]], {"bonds": [[[0, 1], ["1", "0.47", "1250"], {}]]}, bnames + anames[:len(sizes)])]]]]
+        out.append({"id": f"n{idx}", "kind": "single", "names": bnames, "files": files, "sizes": list(sizes), "link": 1})
+        idx += 1
+    # residue nodes annotated with attributes named like atom attributes, on every subset of the residues
+    for sizes, syntax in [((2, 3), "ff"), ((3, 1), "itp")]:
+        blocks = [single_block(NAMES[i], s, 1, i % 2, i + 1) for i, s in enumerate(sizes)]
+        files = [[syntax, [["block", b] for b in blocks]],
+                 ["ff", [["link", ff_link([["a1", "", None], ["a1", ">", None]], {"bonds": [[[0, 1], ["1", "0.47", "1250"], {}]]}, NAMES[:2])]]]]
+        out.append({"id": f"a{idx}", "kind": "single", "names": NAMES[:2], "files": files, "sizes": list(sizes), "link": 1, "annot": True})
+        idx += 1
+    mb, sb = multi_block("MIX", (2, 1), 1, 7), single_block(NAMES[0], 2, 1, 0, 1)
+    out.append({"id": f"a{idx}", "kind": "multi", "names": NAMES[:1], "files": [["itp", [["block", sb], ["block", mb]]]], "sizes": [2, 2, 1],
+                "link": 0, "multi": "MIX", "nres": 2, "annot": True})
+    idx += 1
     # multi-residue (from_itp style) block + single blocks; the link lives in a second (.ff) file
     multis = [((2, 1), 1), ((1, 2), 2)] + ([((1, 2, 1), 1), ((2, 2), 1)] if thorough else [])
     for res_sizes, ssize in multis:
@@ -556,7 +600,24 @@ def multi_placements(n, edges, nres, max_copies=2):
 
 
 def c01_graph_worlds(ffw, n, edges, offsets, cap, rng):
-    """yields (graph world, from_itp placement or None, capped?)"""
+    """yields (graph world, from_itp placement or None)"""
+    if ffw["kind"] == "mods2" and n >= 4 and not (len(edges) == n - 1 and (n == 4 or max(Counter(x for e in edges for x in e).values()) <= 2)):
+        return              # many -mods selections: all graphs up to 3 residues, the trees on 4 (path, star), the path on 5
+    for gw, placement in _plain_graph_worlds(ffw, n, edges, offsets, cap, rng):
+        if not ffw.get("annot"):
+            yield gw, placement
+            continue
+        if n >= 4 and gw["nodes"][0][2] == 1:
+            continue        # annotated 4-residue graphs: offset 7 only
+        keys = list(range(n))
+        subsets = [c for r in range(1, n + 1) for c in itertools.combinations(keys, r)] if n <= 3 else [(k,) for k in keys] + [tuple(keys)]
+        variants = ANNOT_VARIANTS if n <= 3 else [ANNOT_VARIANTS[0], ANNOT_VARIANTS[-1]]
+        for sub in subsets:
+            for var in variants:
+                yield dict(gw, attrs=[[k, var] for k in sub]), placement
+
+
+def _plain_graph_worlds(ffw, n, edges, offsets, cap, rng):
     names = ffw["names"]
     if ffw["kind"] == "multi":
         for placement in multi_placements(n, edges, ffw["nres"]):
@@ -578,9 +639,21 @@ def c01_graph_worlds(ffw, n, edges, offsets, cap, rng):
             yield graph_world(n, edges, list(resn), off), None
 
 
-def c01_modsels(ffw, gw):
-    """-mods selections: none (default termini) and, for force fields with modifications, explicit single selections"""
+def c01_modsels(ffw, gw, rng, thorough=False):
+    """-mods selections: none (default termini); for force fields with modifications explicit single selections; for the
+    force fields with three disjoint modifications every ordered pair / triple of (residue, modification) selections"""
     sels = [None]
+    if ffw["kind"] == "mods2":
+        nodes = sorted(gw["nodes"], key=lambda x: x[2])
+        opts = [[f"{rn}{rid}", m] for _, rn, rid, _ in nodes for m in ("N-ter", "SC-cap", "C-ter")]
+        n = len(nodes)
+        pairs = list(itertools.permutations(opts, 2))
+        triples = list(itertools.permutations(opts, 3))
+        if n >= 4:
+            pairs = rng.sample(pairs, 48 if thorough else 24)
+        if n >= 3:
+            triples = rng.sample(triples, {3: 64, 4: 32}.get(n, 16) if thorough else {3: 16, 4: 8}.get(n, 4))
+        sels += [list(x) for x in pairs] + [list(x) for x in triples]
     if ffw["kind"] == "mods":
         nodes = sorted(gw["nodes"], key=lambda x: x[2])
         first, last = nodes[0], nodes[-1]
@@ -604,7 +677,7 @@ def classify_crash(stage, err, ffw, gw):
 
 def c01_worker(args):
     os.environ["TQDM_DISABLE"] = "1"
-    ffw, paths, graphs, offsets, cap, seed = args
+    ffw, paths, graphs, offsets, cap, seed, thorough = args
     rng = random.Random(seed)
     n_eval = n_nt = n_modapplied = 0
     found = {}
@@ -612,11 +685,12 @@ def c01_worker(args):
     sample = None
     for n, edges in graphs:
         for gw, placement in c01_graph_worlds(ffw, n, edges, offsets, cap, rng):
-            for modsel in c01_modsels(ffw, gw):
+            for modsel in c01_modsels(ffw, gw, rng, thorough):
                 n_eval += 1
                 blocks = ff_blocks(ffw)
                 used_sizes = {len(blocks[fi or rn][0]["atoms"]) for _, rn, _, fi in gw["nodes"]}
-                nontrivial = len(used_sizes) >= 2 or placement is not None or has_branch_or_cycle(gw)
+                nontrivial = (len(used_sizes) >= 2 or placement is not None or has_branch_or_cycle(gw) or bool(gw.get("attrs"))
+                              or len(modsel or []) >= 2 or any(blocks[fi or rn][0]["atoms"][0]["resname"] != (fi or rn) and not fi for _, rn, _, fi in gw["nodes"]))
                 n_nt += int(nontrivial)
                 s2, s3 = run_pipeline(paths, gw, modsel)
                 bad = []
@@ -636,7 +710,7 @@ def c01_worker(args):
                             n_modapplied += 1
                 if placement is not None and min(r for _, _, r, _ in gw["nodes"]) != 1 and bad and placement[0][0] == 0:
                     # the first residue of the molecule stems from a multi-residue block and the residue ids do not start at 1
-                    bad = [("F14-multires-first-resid-offset" if k in ("c01-resid", "c01-residue-graph-attr", "c01-crash-IndexError") else k, t)
+                    bad = [("F14-multires-first-resid-offset" if k in ("c01-resid", "c01-residue-graph-attr", "c01-crash-IndexError", "c01-resid-after-mods") else k, t)
                            for k, t in bad]
                 if placement is not None and len(gw["edges"]) >= len(gw["nodes"]):
                     # residue graph with a cycle: the residues of a block copy may be joined by an edge that is not a DFS tree edge
@@ -682,7 +756,7 @@ def run_c01(ctx, res):
             # one job per (force field, group of graphs): balance the load
             gl = graphs + (PATH5 if ffw["kind"] == "multi" and not ctx.thorough else [])
             for j in range(0, len(gl), 3):
-                jobs.append((ffw, paths, gl[j:j + 3], offsets, cap, ctx.seed * 100003 + i * 101 + j))
+                jobs.append((ffw, paths, gl[j:j + 3], offsets, cap, ctx.seed * 100003 + i * 101 + j, ctx.thorough))
         with mp.Pool(NPROC) as pool:
             outs = pool.map(c01_worker, jobs, chunksize=1)
     finally:
@@ -699,14 +773,20 @@ def run_c01(ctx, res):
     res.bound = (f"{len(ffs)} force fields written to files: every multiset of 1-3 single-residue block types with 1-3 atoms "
                  "(sections bonds/angles/exclusions/pairs/constraints/virtual_sitesn, tagged interactions; two section layouts "
                  f"{'both' if ctx.thorough else 'alternating'}) x syntax {{.ff, polyply .itp}} x {{no link, one bond link ('+' / '>' order; dangling bond in .itp)}}; "
-                 "force fields with N-ter/C-ter modifications (-mods: default termini, first, last, middle residue); multi-residue from_itp blocks "
+                 "force fields with N-ter/C-ter modifications (-mods: default termini, first, last, middle residue); force fields with three modifications naming "
+                 "different atoms (N-ter replaces a1, SC-cap names a2(+a3), C-ter a3): -mods = every ordered pair of (residue, modification) selections for <= 3 residues, "
+                 f"{'48' if ctx.thorough else '24'} seeded pairs beyond, every ordered triple for <= 2 residues and seeded triples beyond, on all graphs <= 3 residues + path/star on 4"
+                 f"{' + path on 5' if ctx.thorough else ''}; blocks whose name differs from the resname of their atoms (PMMA/MMA, PS/STY; .ff and .itp); residue graphs whose nodes "
+                 "carry annotations named like atom attributes (charge, mass, atype, atomname, charge_group; one at a time and all five) on every non-empty subset of <= 3 residues "
+                 "(4 residues: each single residue and all; charge / all five; offset 7), also on a multi-residue world; multi-residue from_itp blocks "
                  f"({'(2,1),(1,2),(1,2,1),(2,2)' if ctx.thorough else '(2,1),(1,2)'} atoms per residue, 1-2 copies, every placement along residue-graph edges{'' if ctx.thorough else '; these worlds also on the 5-residue path'}) with a link in a second file.  "
                  f"Residue graphs: all {len(graphs)} connected graphs on <= {max_nodes} nodes (networkx atlas), node keys 0..n-1, resid = key + offset, offsets {{1,7}}, "
                  f"every resname assignment over the block names{' (capped at 81 seeded assignments per graph and force field: NOT exhaustive for 5 nodes x 3 names)' if cap else ''}.  "
                  f"Each world: MapToMolecule -> ApplyLinks -> ApplyModifications on the real code, contract checked after links and after modifications "
                  f"({modapplied} worlds in which a modification changed the molecule).")
     res.rule = ("world = (force field files, residue graph, resnames, resid offset, -mods); non-trivial iff the residues use >= 2 different block sizes "
-                "or a multi-residue block or the residue graph has a branch or a cycle")
+                "or a multi-residue block or the residue graph has a branch or a cycle or annotated residue nodes or a block named differently from its atoms' resname "
+                "or >= 2 -mods entries")
     res.assumptions.append("charge groups inside a block are non-decreasing in atom order (as in every library block); 'shifted' is read as: one constant "
                            "per block instance and no group shared between instances")
     res.assumptions.append("violations are counted per finding_key; the text gives the number of worlds per class: " + json.dumps(dict(counts)))
